@@ -163,7 +163,7 @@ func c05Exec(r *vf.Run, k c05Case) []finding {
 		types := []mail.SMTPAuthType{mail.SMTPAuthPlainNoEnc, mail.SMTPAuthLoginNoEnc, mail.SMTPAuthCramMD5, mail.SMTPAuthXOAUTH2, mail.SMTPAuthSCRAMSHA256}
 		opts = append(opts, mail.WithSMTPAuth(types[k.Mech]), mail.WithUsername(k.User), mail.WithPassword(k.Pass))
 	}
-	if k.Kind == "dsn" {
+	if k.Kind == "dsn" || k.DSN != 0 {
 		if k.DSN&1 != 0 {
 			opts = append(opts, mail.WithDSN())
 		}
@@ -294,7 +294,7 @@ func init() {
 	vf.Register(&vf.Check{
 		ID: "C05", Title: "envelope addresses and command lines cannot be smuggled",
 		Run: func(r *vf.Run) {
-			r.SetRule("local parts: ALL strings of length 1..L over {a . SP < > @ , ; : \\ \" ü ( +} offered bare and as quoted-string × domain {example.com, [192.0.2.1]} × setter {From, EnvelopeFrom, To, Cc, Bcc, FromFormat, AddToFormat, AddBccFormat}; HELO names {plain, blank inside, CRLF + command, TAB, UTF-8, 300 chars, empty label}; user names/passwords over a hostile alphabet for PLAIN/LOGIN/CRAM-MD5/XOAUTH2/SCRAM; all 16 DSN option combinations; smtp.Client used directly: all call sequences of length 1..3 over {Hello, Mail, Rcpt, Verify with a hostile argument, Noop, Reset, Extension, Quit, Mail/Rcpt with a good argument} × 9 hostile arguments; every command line the client writes is judged by the strict RFC 5321 parser of the reference server and the parsed path must denote the mailbox the caller set (own RFC 5322 dot-atom/quoted-string reading of the input); distinct by case tuple")
+			r.SetRule("local parts: ALL strings of length 1..L over {a . SP < > @ , ; : \\ \" ü ( +} offered bare and as quoted-string × domain {example.com, [192.0.2.1]} × setter {From, EnvelopeFrom, To, Cc, Bcc, FromFormat, AddToFormat, AddBccFormat} × {no DSN options, DSN return/notify parameters on the command lines}; HELO names {plain, blank inside, CRLF + command, TAB, UTF-8, 300 chars, empty label}; user names/passwords over a hostile alphabet for PLAIN/LOGIN/CRAM-MD5/XOAUTH2/SCRAM; all 16 DSN option combinations; smtp.Client used directly: all call sequences of length 1..3 over {Hello, Mail, Rcpt, Verify with a hostile argument, Noop, Reset, Extension, Quit, Mail/Rcpt with a good argument} × 9 hostile arguments; every command line the client writes is judged by the strict RFC 5321 parser of the reference server and the parsed path must denote the mailbox the caller set (own RFC 5322 dot-atom/quoted-string reading of the input); distinct by case tuple")
 			r.Assume("a bare local part that is not an RFC 5322 dot-atom has no defined mailbox: only the line discipline is judged for it", "SMTPUTF8 is advertised so that UTF-8 local parts are legal on the wire")
 			L := 3
 			var cases []c05Case
@@ -317,6 +317,8 @@ func init() {
 					for _, d := range []string{"example.com", "[192.0.2.1]"} {
 						for s := range c05Setters {
 							cases = append(cases, c05Case{Kind: "addr", Local: l, Quoted: q, Domain: d, Setter: s})
+							// the same address with DSN parameters on the MAIL and RCPT lines
+							cases = append(cases, c05Case{Kind: "addr", Local: l, Quoted: q, Domain: d, Setter: s, DSN: 7})
 						}
 					}
 				}
